@@ -1059,6 +1059,7 @@ func ruleGrow(r *Report) {
 
 func ruleCommitUpdates(r *Report) {
 	defer ruleBufferLoopNoExit(r)
+	defer ruleLookupUnderLatch(r)
 	h := r.Rule("C03.twopass", "P", "commitUpdates, per non-empty buffer of a known column: the column itself is applied for the block being committed first; then — in a fresh pass over the same buffer and block — every computed column (cols[1:]); the wrapper rewinds the reader before each Apply", 5)
 	cu := r.Anchor("(*column.Txn).commitUpdates")
 	if cu == nil {
@@ -1487,6 +1488,10 @@ func ruleBackfill(r *Report) {
 		}
 		if !(canReach(snaps[0], seeks[0]) && canReach(seeks[0], apps[0])) {
 			ok, why = false, "snapshot ≺ seek ≺ apply does not hold"
+		}
+		// … within one iteration: round the loop everything reaches everything
+		if !(precedes(snaps[0], seeks[0]) && precedes(seeks[0], apps[0])) {
+			ok, why = false, "the reader is positioned on the block's snapshot after it was applied (snapshot ≺ seek ≺ apply within one iteration)"
 		}
 		// Snapshot answers whether it wrote anything (false for an index): where that answer is
 		// tested, the apply sits on its true edge
